@@ -93,14 +93,24 @@ def run_refactor(name):
     if rc != 0:
         return name, "APPLY-FAILED", [out[-150:]]
     bad = []
+    # refactorings the analysis is known not to read (documented in DESIGN 6): meta.json "unreadable_by": {"C11": "why"} -
+    # there the check must say so (exit 2, ANALYSIS-ERROR) and must not claim a violation
+    try:
+        unreadable = json.load(open(os.path.join(d, "meta.json"))).get("unreadable_by", {})
+    except Exception:
+        unreadable = {}
     try:
         for p in PROPS:
             rc, lines = check(p, tree)
+            if p in unreadable:
+                if rc != 2:
+                    bad.append("%s exit %d (expected the documented ANALYSIS-ERROR): %s" % (p, rc, (lines or ["?"])[0]))
+                continue
             if rc != 0:
                 bad.append("%s exit %d: %s" % (p, rc, (lines or ["?"])[0]))
     finally:
         sh("git -C %s checkout -- ." % tree)
-    return name, "ok" if not bad else "ALARM", bad[:6]
+    return name, ("ok" if not unreadable else "ok(unreadable:%s)" % ",".join(sorted(unreadable))) if not bad else "ALARM", bad[:6]
 
 
 def main():
@@ -124,7 +134,7 @@ def main():
         with cf.ThreadPoolExecutor(jobs) as ex:
             for name, status, lines in ex.map(lambda t: t[0](t[1]), tasks):
                 res[name] = status
-                if status != "ok":
+                if not status.startswith("ok"):
                     print(name, status)
                     for l in lines:
                         print("     ", l)
@@ -133,7 +143,10 @@ def main():
         for path in _wts:
             sh("git -C /repo worktree remove --force %s" % path)
     tot = len(res)
-    okn = sum(1 for v in res.values() if v == "ok")
+    okn = sum(1 for v in res.values() if v.startswith("ok"))
+    und = sorted(k for k, v in res.items() if v.startswith("ok("))
+    if und:
+        print("documented as unreadable (ANALYSIS-ERROR expected and observed):", ", ".join(und))
     print("regress: %d/%d as expected" % (okn, tot))
     return 0 if okn == tot else 1
 
